@@ -107,6 +107,10 @@ def fixed_pool_cases(profile):
             cases.append({'backend': be, 'api': 'lpm', 'n': 5, 'workers': 2, 'buffer': 3, 'delays': [8, 0, 4, 0, 1]})
             cases.append({'backend': be, 'api': 'pm', 'n': 5, 'workers': 3, 'buffer': 3, 'delays': [8, 0, 4, 0, 1],
                           'with_key': True})
+            # an EMPTY dataset through every API of every backend (an empty validation split), and a single example
+            for api in ('lpm', 'pm', 'pf'):
+                cases.append({'backend': be, 'api': api, 'n': 0, 'workers': 2, 'buffer': 2, 'delays': []})
+                cases.append({'backend': be, 'api': api, 'n': 1, 'workers': 3, 'buffer': 4, 'delays': [1]})
             cases.append({'backend': be, 'api': 'pf', 'n': 12, 'workers': 2, 'buffer': 4,
                           'delays': [4, 0, 0, 8, 0, 1, 0, 0, 2, 0, 0, 0], 'src': 'dict'})
             # a history of short iterations with DIFFERENT functions in one process (per-process caches of
@@ -229,6 +233,7 @@ def dfs_workloads(profile, tier):
                     out.append((dict(wl, stop={'kind': 'close', 'k': stopk}), k))
                 out.append((dict(wl, stop={'kind': 'del', 'k': max(0, n - 1)}), k))
                 out.append((dict(wl, stop={'kind': 'throw', 'k': max(0, n - 1)}), min(k, 1)))
+                out.append((dict(wl, stop={'kind': 'close_other', 'k': max(0, n - 1)}), min(k, 1)))
                 if wl['kind'] in ('lpm', 'pm') and wl['workers'] == 2 and wl['buffer'] == 2 and n == 2:
                     # a single-thread prefetch below the parallel map, the consumer stops with tasks still pending
                     out.append((dict(wl, n=4, buffer=3, under_pf1=1, stop={'kind': 'close', 'k': 1}), 1))
